@@ -30,8 +30,12 @@ whose result is pushed into a Vec adds one array level; the produced depths must
 RB = r"apollo_smith::response::ResponseBuilder::<'a, 'doc, 'schema, R>::"
 
 
+ANCHORS = r"::(collect_fields|concrete_type|type_condition_matches|selection_set|generate_field_value|repeated_selection_set|repeated_leaf_field|overlaid_object|overlaid_value|overlaid_composite|leaf_field|arbitrary_len|should_be_null|choose_index|try_generate|generate_scalar)$"
+
+
 def F(prog, name):
-    return prog.fn("^" + RB + name + "$")
+    """the named method with the private helpers extracted from it folded back in"""
+    return prog.inline(prog.fn("^" + RB + name + "$"), keep=ANCHORS)
 
 
 def _inline_condition_hir(prog, f):
@@ -95,7 +99,19 @@ def rule_collect(prog, rep):
             cond = any(x[0] == "callbool" and x[1].endswith("type_condition_matches") and x[3] is True and f.sym(x[4].args[2]) == "&arg3" and "Fragment::type_condition(" in f.sym(x[4].args[1]) for x in fs)
             cond = cond and any(x[0] == "variant" and x[2] == "Some" and "IndexMap::<K, V, S>::get" in x[1] for x in _strip(fs))
         else:
-            cond = _inline_condition_hir(prog, f)
+            # on the resolved CFG: the test type_condition_matches(<this fragment's condition>,
+            # concrete) exists, and its false edge cannot reach the recursion within the iteration
+            from ..flow import derives as _derives
+            cond = False
+            tcm = [x for x in f.live_calls() if x.name.endswith("type_condition_matches") and "InlineFragment" in f.sym(x.args[1]) and "type_condition" in f.sym(x.args[1])]
+            nxt = [x.block for x in f.live_calls() if re.search(r"Iterator>?::next$", x.name)]
+            if len(tcm) == 1 and f.sym(tcm[0].args[2]) == "&arg3":
+                br = branch_on_call(f, tcm[0])
+                if br is not None:
+                    t_true, t_false, _sb = br
+                    cond = c.block not in f.reachable_blocks([t_false], avoid=nxt) and c.block in f.reachable_blocks([t_true], avoid=nxt)
+            if not cond:
+                cond = _inline_condition_hir(prog, f)
         ok = same_type and sel and cond
         rep.obligation(ok)
         if ok:
@@ -125,7 +141,20 @@ def rule_collect(prog, rep):
                             what, "given to `%s` on the result map" % replaced[0].name.split("::")[-1] if replaced else "not appended to `collected.entry(key).or_default()`"), c.loc())
     ent = [c for c in f.live_calls() if c.name.endswith("IndexMap::<K, V, S>::entry")]
     push = [c for c in f.live_calls() if c.name.endswith("Vec::<T, A>::push")]
-    ok = len(push) == 1 and re.search(r"to_string\(&\*Option::unwrap_or\(Option::as_ref\(&\*<Node<T> as Deref>::deref\(&\*%s\.as:Field\.0\)\.alias\), &\*<Node<T> as Deref>::deref\(&\*%s\.as:Field\.0\)\.name\)\)" % (SEL, SEL), f.sym(push[0].args[0])) is not None
+    ok = False
+    if len(push) == 1:
+        from ..flow import derives as _derives2
+        shape = re.search(r"to_string\(&\*Option::unwrap_or\(Option::as_ref\(&\*<Node<T> as Deref>::deref\(&\*%s\.as:Field\.0\)\.alias\), &\*<Node<T> as Deref>::deref\(&\*%s\.as:Field\.0\)\.name\)\)" % (SEL, SEL), f.sym(push[0].args[0])) is not None
+        paths, via = _derives2(f, push[0].args[0], maxn=1500)
+        ents = [x for x in via if x.name.endswith("IndexMap::<K, V, S>::entry")]
+        keyed = False
+        for e in ents:
+            kp, kv = _derives2(f, e.args[1], maxn=1500)
+            has_alias = any(re.search(r"\.alias(\.as:Some\.0)?$", q) for q in kp)
+            has_name = any(q.endswith(".name") for q in kp)
+            keyed = keyed or (has_alias and has_name) or any(x.name.endswith("Field::response_key") for x in kv)
+        pushed_field = "as:Field.0" in f.sym(push[0].args[1])
+        ok = (shape or keyed) and pushed_field
     rep.obligation(ok)
     if ok:
         rep.instance("C33.COLLECT", "Field: grouped under alias.unwrap_or(name)")
@@ -257,6 +286,21 @@ def rule_concrete(prog, rep):
                 variants.append(tuple(sorted(k for k, t in info["edges"].items())))
         sigs.append((tuple(tests), tuple(variants)))
     ok = len(cls) == 2 and sigs[0][0] and [t[0] for t in sigs[0][0]] == [t[0] for t in sigs[1][0]] and sigs[0][1] == sigs[1][1] and all("implements_interfaces" in t[1] for s in sigs for t in s[0])
+    if not ok and not cls:
+        # both passes go through one shared function (`implementing_object_types(schema, ty)`):
+        # the count and the nth() are taken from two calls of the same callee with the same
+        # arguments, and that callee filters on implements_interfaces
+        cnt = [c for c in f.live_calls() if re.search(r"Iterator>?::count$", c.name)]
+        nth = [c for c in f.live_calls() if re.search(r"Iterator>?::nth$", c.name)]
+        if len(cnt) == 1 and len(nth) == 1:
+            a, b = f.sym(cnt[0].args[0]), f.sym(nth[0].args[0])
+            shared = [g for g in prog.fns.values() if g.crate == f.crate and g.kind in ("fn", "assoc_fn") and a.lstrip("&").startswith(g.name.split("::")[-1] + "(") or a.lstrip("&").startswith("response::" + g.name.split("::")[-1] + "(")]
+            body_ok = False
+            for g in shared:
+                for h in [g] + [x for x in prog.fns.values() if x.kind == "closure" and x.name.startswith(g.name + "::")]:
+                    if any(c.name.endswith("IndexSet::<T, S>::contains") and "implements_interfaces" in h.sym(c.args[0]) for c in h.live_calls()):
+                        body_ok = True
+            ok = a.lstrip("&") == b.lstrip("&") and body_ok
     rep.obligation(ok)
     if ok:
         rep.instance("C33.CONCRETE", "interface: the count pass and the nth(idx) pass filter schema.types identically (Object that implements the interface)")
@@ -341,6 +385,9 @@ def _type_depth(f, sym, env):
     m = re.match(r"^arg(\d+)$", x)
     if m:
         return env.get(int(m.group(1)))
+    m = re.match(r"^arg1\.(\d+)$", x)
+    if m and ("up", int(m.group(1))) in env:
+        return env[("up", int(m.group(1)))]
     m = re.match(r"^(?:\w+::)*item_type\((.*)\)$", x)
     if m and _balanced(m.group(1)):
         d = _type_depth(f, m.group(1), env)
@@ -445,6 +492,7 @@ def rule_nest(prog, rep):
                 continue
             calls.append((c, h))
         pushed = set()
+        closure_out = set()
         for p in g.live_calls():
             if re.search(r"Vec::<T(, A)?>::push$", p.name) and _feasible(g, p.block, env):
                 _, via = derives(g, p.args[1])
@@ -452,7 +500,38 @@ def rule_nest(prog, rep):
                     for c, h in calls:
                         if v is c or (v.block == c.block):
                             pushed.add(c.block)
-        out = set()
+        # `(0..n).map(|_| <generator>(..)).collect()` into the array: the generator calls sit in a
+        # closure of g; evaluate them there with the captured types' depths, as pushed elements
+        arr = any(st[0] == "=" and st[2][0] == "agg" and isinstance(st[2][1], list) and st[2][1][0] == "adt" and st[2][1][1].endswith("Value") and st[2][1][2] == "Array"
+                  for b in g.live_blocks() if _feasible(g, b, env) for st in g.stmts(b))
+        for b in sorted(g.live_blocks()):
+            if not _feasible(g, b, env):
+                continue
+            for st in g.stmts(b):
+                if not (st[0] == "=" and st[2][0] == "agg" and isinstance(st[2][1], list) and st[2][1][0] == "closure"):
+                    continue
+                h0 = prog.fns.get(st[2][1][1])
+                if h0 is None or not arr:
+                    continue
+                cenv = {}
+                for i, o in enumerate(st[2][2]):
+                    dd = _type_depth(g, g.sym(o), env)
+                    if dd is not None:
+                        cenv[("up", i)] = dd
+                for cc in h0.live_calls():
+                    hh = gen_fn(cc)
+                    if hh is None or not _feasible(h0, cc.block, cenv):
+                        continue
+                    tps = type_params(hh)
+                    if not tps:
+                        sub = {0}
+                    else:
+                        henv = {i: _type_depth(h0, h0.sym(cc.args[i - 1]), cenv) for i in tps}
+                        if any(v is None for v in henv.values()):
+                            raise Undecided("%s: the list depth of a type given to %s inside a closure is not derivable" % (g.name.split("::")[-1], hh.name.split("::")[-1]))
+                        sub = ev(hh, henv)
+                    closure_out.update((1 + d) if isinstance(d, int) else d for d in sub)
+        out = set(closure_out)
         for c, h in calls:
             tps = type_params(h)
             if not tps:
@@ -476,7 +555,7 @@ def rule_nest(prog, rep):
                     continue
                 d = next(iter(r))
             out.add(1 + d if c.block in pushed else d)
-        if not calls:
+        if not calls and not closure_out:
             out.add(0)
         active.discard(key)
         memo[key] = out
